@@ -91,7 +91,10 @@ def run(tape, prop, tier):
     foreign_yields = tape.draw(6)
     stop_on_exc = exit_path in ("handler_err", "job_err") or (exit_path not in ("isolation", "exhaust") and tape.chance(0.2))
     salt = tape.draw(1000)
-    res.sample = dict(dispatcher="realtime" if realtime else "backtesting", exit_path=exit_path, max_concurrent=maxc,
+    # something (a handler, a lazily configured library) chains its own log record factory in while the run is on
+    chain_factory = tape.chance(0.2)
+    idle_boom = tape.chance(0.3)          # idle handlers that fail now and then
+    res.sample = dict(log_factory_chained_during_run=chain_factory, dispatcher="realtime" if realtime else "backtesting", exit_path=exit_path, max_concurrent=maxc,
                       producers=[{k: v for k, v in p.items()} for p in prods], failing_producer=failing,
                       finalize_fails=(fin_failing if fin_fails else None), handlers_per_source=nh,
                       handler_durations=durs, jobs=jobs_spec, idle_handlers=idle_durs, stop_at_entry=stop_at,
@@ -210,6 +213,15 @@ def run(tape, prop, tier):
                 try:
                     S["handled"] += 1
                     n = S["handled"]
+                    if chain_factory and n == 1 and not realtime:
+                        cur_factory = logging.getLogRecordFactory()
+
+                        def chained(*a, **k):
+                            r_ = cur_factory(*a, **k)
+                            r_.library = "x"
+                            return r_
+                        logging.setLogRecordFactory(chained)
+                        res.probes["log_factory_chained_during_run"] += 1
                     dur, yields = durs[(hid * 5 + ev.eid) % D]
                     for _ in range(yields):
                         await asyncio.sleep(0)
@@ -303,11 +315,15 @@ def run(tape, prop, tier):
                     S["other_inflight"] -= 1
             d.schedule(when, job)
         for k, dur in enumerate(idle_durs):
-            async def idle(dur=dur):
+            async def idle(dur=dur, k=k):
                 S["other_inflight"] += 1
                 note_in()
                 try:
                     await asyncio.sleep(dur)
+                    S["idle_calls"] = S.get("idle_calls", 0) + 1
+                    if idle_boom and S["idle_calls"] % 3 == k % 3:
+                        res.faults["idle_handler_raises"] += 1
+                        raise RuntimeError("idle handler boom")
                 finally:
                     S["other_inflight"] -= 1
             d.subscribe_idle(idle)
